@@ -57,10 +57,10 @@ CHECKS.update({
         technique="exhaustive small-scope enumeration plus property-based testing against an independent specification (stable partition); end-to-end differential leg over loopback listeners",
         text="All IPv4/IPv6 family patterns up to length 8 (quick) / 12 (thorough) for the four local-binding combinations, exhaustively, plus random lists with duplicates: output is a permutation, first/second element and remainder order equal the specification, set_port applies to every address; through TcpTransport with a scripted resolver the accepted peer is the first live address of the specified order.",
         note="Trusted base: the hook wrappers call the crate-private routines unchanged; loopback networking for the end-to-end leg (refused connects are immediate compared with the >= 570 ms stagger)."),
-    "C20": dict(engine="sni", ref="§5 C20, §4 E10",
+    "C20": dict(engine="sni+tlsstack", ref="§5 C20, §4 E10, §10.3",
         technique="grammar-based property testing of the public ValidateSNI layer against an independent reference predicate (two-directional: never forwarded on mismatch, never rejected on match)",
-        text="Requests over all http::Version constants x Host header x URI authority x letter case x port x IPv4/IPv6 literals x server name (absent/equal/equal modulo case/different) x TLS info; forwarded/rejected outcome and the validated flag observed by a recording inner service must equal the reference predicate wherever the property constrains it.",
-        note="Trusted base: the reference predicate in the harness (about 20 lines, from the statement); server names are generated as a TLS stack reports them (DNS names, never bracketed)."),
+        text="Requests over all http::Version constants x Host header x URI authority x letter case x port x IPv4/IPv6 literals x server name (absent/equal/equal modulo case/different) x TLS info; forwarded/rejected outcome and the validated flag observed by a recording inner service must equal the reference predicate wherever the property constrains it. A full-stack leg (engine tlsstack) runs the real Server with with_tls_connection_info + with_tls + ValidateSNI against the real client stack (TlsTransport, HTTP/1 and HTTP/2, ALPN): the handler must run exactly when the request host equals the handshake SNI, and a mismatching Host header (HTTP/1) must be answered without the handler running.",
+        note="Trusted base: the reference predicate in the harness (about 20 lines, from the statement); server names are generated as a TLS stack reports them (DNS names, never bracketed); rustls + fixture certificates in the full-stack leg."),
 })
 
 CHECKS.update({
@@ -82,9 +82,9 @@ CHECKS.update({
 })
 
 CHECKS.update({
-    "C13": dict(engine="reqgrammar", ref="§5 C13, §4 E6",
+    "C13": dict(engine="reqgrammar+tlsstack", ref="§5 C13, §4 E6, §10.3",
         technique="grammar-based property testing of the public client layers and the real connection builder with the wire captured; oracle = statement-derived expectations on request target, Host header, version, stripped headers and protocol selection",
-        text="Requests from a grammar (schemes, hosts incl. IPv4/IPv6, ports, paths, queries, URI forms, methods incl. CONNECT, all versions, pre-set headers) crossed with connection outcomes (request version x ALPN) go through SetHostHeader/Http2Checks/Http1Checks over a stub connection, through ConnectionPoolService (pooled/unpooled) and ConnectorService with stub collaborators, and through the real HttpConnectionBuilder + RequestExecutor with the bytes captured: preface iff HTTP/2 requested or ALPN h2; HTTP/1 target, Host (caller's preserved) and HTTP/2 header stripping / CONNECT rejection as stated.",
+        text="Requests from a grammar (schemes, hosts incl. IPv4/IPv6, ports, paths, queries, URI forms, methods incl. CONNECT, all versions, pre-set headers) crossed with connection outcomes (request version x ALPN) go through SetHostHeader/Http2Checks/Http1Checks over a stub connection, through ConnectionPoolService (pooled/unpooled) and ConnectorService with stub collaborators, and through the real HttpConnectionBuilder + RequestExecutor with the bytes captured: preface iff HTTP/2 requested or ALPN h2; HTTP/1 target, Host (caller's preserved) and HTTP/2 header stripping / CONNECT rejection as stated. The full-stack TLS leg (engine tlsstack) checks the version the real TLS server's handler observes against requested version x negotiated ALPN.",
         note="Trusted base: the http crate decides which requests are well-typed; hyper serialises the final http::Request (target compared via to_string and, in the wire leg, parsed from the captured bytes); for schemes without a default port either Host form is accepted."),
     "C17": dict(engine="reqgrammar+tlswire", ref="§5 C17, §4 E6/E5",
         technique="grammar-based robustness testing with a process-wide panic hook and catch_unwind: any panic located in the library (caller task or spawned task) is a violation; debug assertions on",
@@ -106,10 +106,10 @@ CHECKS.update({
         technique="virtual-time schedule generation: the graceful-shutdown signal instant is swept relative to accept, protocol detection, request transfer, handler execution and response transfer; history invariants over the handler log, the executor-wrapped connection tasks and the client results",
         text="Serving future resolves Ok exactly at the signal; every request whose handler started before the signal receives its complete correct response; every connection task (including idle keep-alive connections and connections still in protocol detection) finishes while the clients keep their ends open; nothing is accepted or served on a connection accepted after the signal.",
         note=NET_NOTE + " Idle holders are only placed where hyper itself closes them on graceful shutdown (auto-detecting and idle HTTP/1 connections)."),
-    "C09": dict(engine="netsim+socksrv", ref="§5 C09, §4 E2, §10.3",
+    "C09": dict(engine="netsim+socksrv+tlsstack", ref="§5 C09, §4 E2, §10.3",
         technique="fault-sequence generation in virtual time: per-connection faults (cancelled connect, disconnects, garbage, truncated head/body, mid-response disconnect, partial preface, handler errors) interleaved with well-behaved requests; oracle = serving futures still pending, probe client served, other requests correct",
         text="After 1-5 generated faults per case the serving future of every server must still be pending, a fresh well-behaved probe client must be served by every server, and every well-behaved request on other connections must have completed with its correct response.",
-        note=NET_NOTE + " A real-socket leg (engine socksrv) repeats the fault/probe scheme on TCP and Unix acceptors in real time (reset or close before accept, garbage, truncated head/body); a probe that merely times out there is inconclusive. TLS handshake faults are exercised at the client side in C12 (tlswire); OS-level accept() errors are not reachable."),
+        note=NET_NOTE + " A real-socket leg (engine socksrv) repeats the fault/probe scheme on TCP and Unix acceptors in real time (reset or close before accept, garbage, truncated head/body); a probe that merely times out there is inconclusive. A TLS-listener leg (engine tlsstack) injects plaintext, garbage, truncated-ClientHello, immediate-close and wrong-SNI clients at a real Server with with_tls and then requires a well-behaved TLS probe to be served and the serving future still pending. OS-level accept() errors are not reachable."),
 })
 
 NOT_YET = {
@@ -129,9 +129,9 @@ NOT_YET = {
 }
 
 CHECKS.update({
-    "C12": dict(engine="tlswire", ref="§5 C12, §4 E5",
+    "C12": dict(engine="tlswire+tlsstack", ref="§5 C12, §4 E5, §10.3",
         technique="property-based testing with fault injection at the TLS peer: generated (scheme, host form, port, peer behaviour, ALPN, client TLS) combinations through the real TlsTransport with the client's wire recorded; oracle = TLS record framing of every byte, absence of a secret token, outcome vs certificate validity, SNI seen by the peer",
-        text="For https/wss with a client TLS configuration every byte put on the wire must parse as TLS records and never contain the application secret; a stream is only returned after a handshake with a peer whose (fixture) certificate is valid for the URI host and the SNI offered equals that host; mismatching, untrusted, plaintext, closing, truncating and silent peers yield an error or nothing, never a stream; other schemes pass bytes verbatim; no syntactically valid host panics.",
+        text="For https/wss with a client TLS configuration every byte put on the wire must parse as TLS records and never contain the application secret; a stream is only returned after a handshake with a peer whose (fixture) certificate is valid for the URI host and the SNI offered equals that host; mismatching, untrusted, plaintext, closing, truncating and silent peers yield an error or nothing, never a stream; other schemes pass bytes verbatim; no syntactically valid host panics. The full-stack leg (engine tlsstack) runs the whole client (pool, connector, TlsTransport, HTTP/1 and HTTP/2) against a real TLS Server: request secrets in path/header/body never appear in the recorded client bytes, every byte is TLS-framed, and the server's certificate resolver sees SNI = URI host.",
         note="Trusted base: rustls on both ends, the committed 100-year fixture certificates and the system clock inside their validity; ALPN offers without overlap are accepted either way."),
 })
 NOT_YET = {}
